@@ -4,7 +4,9 @@ import json, os, sys
 VERIF = os.path.dirname(os.path.dirname(os.path.abspath(__file__)))
 props = [json.loads(l) for l in open(os.path.join(VERIF, "properties.jsonl"))]
 
-COMMON_NOTE = ("Trusted: Lean 4.33 kernel; axioms audited per run to be within {propext, Classical.choice, Quot.sound} (no native_decide/bv_decide/sorry/own axioms); "
+COMMON_NOTE = ("Tie T0 (proved): the C source is translated to Lean on every run (tools/c2lean.py, trusted) and proved to refine the model (lean/RdsProps/Refinement.lean: crun_refines); "
+               "a broken refinement lemma about a C function this property's proof rests on is a broken obligation of this check. "
+               "Trusted: Lean 4.33 kernel; axioms audited per run to be within {propext, Classical.choice, Quot.sound} (no native_decide/bv_decide/sorry/own axioms); "
                "the statements in lean/RdsSpec (Monitors.lean, Statements.lean) and reference tables (Reference.lean); the tie: tables regenerated from the compiled "
                "current source over complete finite domains (harness/extract.c -> RdsModel/Generated.lean) and differential correspondence of the hand-written model "
                "with the real library (harness/harness.c, ASan+UBSan build of /repo's working tree, vs the compiled Lean model; swept + sampled, not proved). "
@@ -88,7 +90,7 @@ def main():
             "add_only": True,
         },
         "engines": [{"name": "lean-model", "path": "lean/", "serves_properties": [c["property_id"] for c in checks],
-                     "kind_free_text": "Lean 4 model + theorems (lean/RdsModel, RdsSpec, RdsProofs, RdsProps), native driver rdsmodel, C harness (harness/), orchestrator check.py"}],
+                     "kind_free_text": "Lean 4 model + theorems (lean/RdsModel, RdsSpec, RdsProofs, RdsProps), C-to-Lean translator tools/c2lean.py + refinement proofs (lean/RdsC, RdsProofs/Trans*), native driver rdsmodel, C harness (harness/), orchestrator check.py"}],
         "checks": checks,
         "not_applicable": na,
         "notes": "See DESIGN.md. Fix commits in /repo and known findings are listed in known_findings.json.",
